@@ -247,3 +247,33 @@ Proof.
   intros d b Hb. rewrite (B d b Hb), andb_true_iff, orb_true_iff, negb_true_iff. rewrite <- !key_in_iff'.
   destruct (key_in (map fst tbl) _), (key_in all_kmers _); intuition congruence.
 Qed.
+
+(* ------------------------------------------------------------------ what [observed_adjs] lists, by position *)
+Lemma in_windows k reads w : In w (windows k reads) <-> exists r i, In r reads /\ i + k <= length r /\ w = kmer_at k r i.
+Proof.
+  unfold windows, kmers. rewrite in_flat_map. split.
+  - intros [r [Hr Hw]]. apply in_map_iff in Hw as [i [<- Hi]]. apply in_seq in Hi. exists r, i. repeat split; auto. lia.
+  - intros [r [i [Hr [Hi ->]]]]. exists r. split; [exact Hr|]. apply in_map. apply in_seq. lia.
+Qed.
+Lemma kmer_at_prefix K r i : firstn K (kmer_at (S K) r i) = kmer_at K r i.
+Proof. unfold kmer_at, sub. rewrite firstn_firstn. now replace (Nat.min K (S K)) with K by lia. Qed.
+Lemma kmer_at_suffix K r i : skipn 1 (kmer_at (S K) r i) = kmer_at K r (S i).
+Proof.
+  unfold kmer_at, sub. rewrite skipn_firstn_comm. replace (S K - 1) with K by lia. f_equal.
+  rewrite ListFacts.skipn_skipn. f_equal. lia.
+Qed.
+(* an observed adjacency is a (K+1)-window of some read whose two k-mers both occur at least [thr] times
+   (counting both strands when unstranded), canonical when unstranded *)
+Theorem observed_adjs_spec K stranded thr reads w :
+  In w (observed_adjs K stranded thr reads) <->
+  exists r i, In r reads /\ i + S K <= length r /\ w = canon_s stranded (kmer_at (S K) r i) /\
+              retained K stranded thr reads (kmer_at K r i) /\ retained K stranded thr reads (kmer_at K r (S i)).
+Proof.
+  unfold observed_adjs, retained, retainedb. rewrite in_map_iff. split.
+  - intros [x [<- Hx]]. apply filter_In in Hx as [Hx Hr]. apply in_windows in Hx as [r [i [Hin [Hi ->]]]].
+    apply andb_true_iff in Hr as [A B]. apply Nat.leb_le in A, B. rewrite kmer_at_prefix in A. rewrite kmer_at_suffix in B.
+    exists r, i. auto.
+  - intros [r [i [Hin [Hi [-> [A B]]]]]]. exists (kmer_at (S K) r i). split; [reflexivity|]. apply filter_In. split.
+    + apply in_windows. exists r, i. auto.
+    + rewrite kmer_at_prefix, kmer_at_suffix. apply andb_true_iff. split; now apply Nat.leb_le.
+Qed.
